@@ -567,11 +567,22 @@ func (stmt *Statement) clone() *Statement {
 //	stmt.SetColumn("Name", "jinzhu") // Hooks Method
 //	stmt.SetColumn("Name", "jinzhu", true) // Callbacks Method
 func (stmt *Statement) SetColumn(name string, value interface{}, fromCallbacks ...bool) {
+	setMapValue := func(m map[string]interface{}) {
+		if stmt.Schema != nil {
+			// the caller may have spelled the key as field name or as column name, replace it
+			if field := stmt.Schema.LookUpField(name); field != nil {
+				delete(m, field.Name)
+				delete(m, field.DBName)
+			}
+		}
+		m[name] = value
+	}
+
 	if v, ok := stmt.Dest.(map[string]interface{}); ok {
-		v[name] = value
+		setMapValue(v)
 	} else if v, ok := stmt.Dest.([]map[string]interface{}); ok {
 		for _, m := range v {
-			m[name] = value
+			setMapValue(m)
 		}
 	} else if stmt.Schema != nil {
 		if field := stmt.Schema.LookUpField(name); field != nil {
